@@ -169,7 +169,7 @@ func rwArgs(mw *mwSpec, method string, in []interface{}) []interface{} {
 		}
 		out[0] = m
 	case "nextColor":
-		out[0] = base.Color(int64(out[0].(base.Color))*3 + mw.K)
+		out[0] = base.Color((int64(out[0].(base.Color))*3 + mw.K) % 100003)
 	case "blob":
 		out[0] = append(append([]byte(nil), out[0].([]byte)...), tag...)
 	case "echoThing", "publishPing", "subscribeNum", "subscribePing":
@@ -297,7 +297,7 @@ func rwRes(mw *mwSpec, method string, in []interface{}) []interface{} {
 			l := append([]*base.Thing(nil), out[0].([]*base.Thing)...)
 			out[0] = append(l, &base.Thing{AnID: int32(mw.K), AString: tag})
 		case "nextColor":
-			out[0] = base.Color(int64(out[0].(base.Color))*5 + mw.K)
+			out[0] = base.Color((int64(out[0].(base.Color))*5 + mw.K) % 100003)
 		case "blob":
 			out[0] = append(append([]byte(nil), out[0].([]byte)...), tag...)
 		case "echoThing":
